@@ -54,6 +54,9 @@ checks = {
  "C05": ("exploration", "bounded-exhaustive enumeration of token strings at every text position, of operator/context nestings, and of flag combinations, through the real goose; a Coq-rules lexer + precedence parser reads the output; nesting judged by interpreting the parsed text and comparing with Go",
          "Every token string up to the length bound at 11 text positions leaves the sentence structure and all bodies unchanged (or the package is rejected); every enumerated nesting evaluates like Go when read with Coq's precedences; all 8 flag combinations give identical bodies.",
          "Coq lexer rules and notation levels as modelled in mc/gl; nesting judged by value on boundary inputs", "2 C05"),
+ "C06": ("model_checking", "stateless exploration of all schedules up to a preemption bound of the real TranslatePackages workers under a controlled scheduler (interface.go instrumented by overlay); exhaustive subset/order regrouping through the real binary; free-running -race complement",
+         "Every explored schedule of every pair/triple of fixture packages returns, in a schedule-independent order, exactly the solo translation (bytes and errors) of each package; every subset in both orders through the real binary reproduces the solo files, exit status and error lists; the -race build reports no race.",
+         "preemption points at declaration granularity only (inside one declaration: race pass); memoised package loading", "2 C06"),
 }
 todo = {}
 man = {
